@@ -38,19 +38,22 @@ def c14neg (a : List String) (obs : String) : String × String :=
   | cfgS :: items =>
     let cfg := parseCfg14 cfgS
     -- model
-    let (outs, st) := items.foldl (fun (acc : List String × NegSt) it =>
-      if it == "reset" then (acc.1 ++ ["reset"], acc.2.reset) else
-      let (r, st') := negotiate cfg acc.2 (parseOptItem it)
+    -- "cfg=<s,c,sb,cb>": the owner sets Extension.Parameters between upgrades; Negotiate reads it afresh
+    let (outs, st, _) := items.foldl (fun (acc : List String × NegSt × Params) it =>
+      if it == "reset" then (acc.1 ++ ["reset"], acc.2.1.reset, acc.2.2) else
+      if it.startsWith "cfg=" then (acc.1 ++ ["cfg"], acc.2.1, parseCfg14 (it.drop 4).toString) else
+      let (r, st') := negotiate acc.2.2 acc.2.1 (parseOptItem it)
       let s := match r with
         | .none_ => "none"
         | .accept o => "acc:" ++ optStr o
         | .error e => "err:" ++ perrStr e
         | .panic => "PANIC"
-      (acc.1 ++ [s], st')) ([], {})
-    let solo := String.mk (items.map fun it =>
-      if it == "reset" then 'r' else
-      match (negotiate cfg {} (parseOptItem it)).1 with
-      | .accept _ => '1' | .error _ => 'e' | _ => '0')
+      (acc.1 ++ [s], st', acc.2.2)) ([], {}, cfg)
+    let solo := String.mk ((items.foldl (fun (acc : List Char × Params) it =>
+      if it == "reset" then (acc.1 ++ ['r'], acc.2) else
+      if it.startsWith "cfg=" then (acc.1 ++ ['c'], parseCfg14 (it.drop 4).toString) else
+      (acc.1 ++ [match (negotiate acc.2 {} (parseOptItem it)).1 with
+        | .accept _ => '1' | .error _ => 'e' | _ => '0'], acc.2)) ([], cfg)).1)
     let model := s!"{";".intercalate outs} acc={b2s st.accepted}:{paramsStr st.params} solo={solo}"
     let obsSolo := ((obs.splitOn " solo=").getD 1 "").toList
     -- oracle
@@ -62,6 +65,7 @@ def c14neg (a : List String) (obs : String) : String × String :=
       match obsI, solo with
       | o :: os', c :: cs =>
         if c == 'r' then first os' cs false
+        else if c == 'c' then first os' cs accepted
         else if accepted then first os' cs true
         else if c == '1' && !o.startsWith "acc:" then some "bad:acceptable-offer-not-accepted-after-earlier-offers"
         else if c == '0' && o != "none" then some "bad:offer-treated-differently-than-alone"
@@ -75,6 +79,7 @@ def c14neg (a : List String) (obs : String) : String × String :=
         else (first obsItems obsSolo false).getD "ok"
       | it :: its', o :: os' =>
         if it == "reset" then judge its' os' false else
+        if it.startsWith "cfg=" then judge its' os' accepted else
         if o.startsWith "PANIC" then "bad:panic" else
         let opt := parseOptItem it
         if opt.name != extName then (if o == "none" then judge its' os' accepted else "bad:foreign-extension-answered")
